@@ -29,11 +29,11 @@ for p in props:
     checks.append(dict(property_id=pid, quick_cmd="./check %s --tier quick" % pid, thorough_cmd="./check %s --tier thorough" % pid,
         evidence_file="evidence/%s.json" % pid, replay_cmd_template="./check %s --replay {path}" % pid, engine="lean4-proof+correspondence",
         level_claimed=dict(category="proof", text=text, design_ref="DESIGN.md §5 " + pid),
-        level_note="Trusted: Lean 4.33 kernel (+propext, Classical.choice, Quot.sound), the translators tools/gen_constants.py (constants, source facts) and tools/gen_code.py, gen_imp.py, gen_str.py, gen_ksa.py, gen_hash.py (cipher loops, header layouts, RC4 step, zero-strip rule, big-integer formulas, the PIN / matrix-card loops, NormalizedString::new, the RC4 key schedule, the 14 hash-layout functions; their meanings in lean/WowSrp/Model/Mini*.lean), the correspondence harness (harness/, lean/Driver.lean, tools/verif.py); modelled not verified: rustc/std, sha-1/hmac/md5, num-bigint/rug, rand (Model/Deps.lean, Model/Crypto.lean)",
+        level_note="Trusted: Lean 4.33 kernel (+propext, Classical.choice, Quot.sound), the translators tools/gen_constants.py (constants, source facts) and tools/gen_code.py, gen_imp.py, gen_str.py, gen_ksa.py, gen_hash.py, gen_ilv.py, gen_api.py with the scope guards of gen_guard.py (cipher loops, header layouts, RC4 step, zero-strip rule, big-integer formulas, the PIN / matrix-card loops, NormalizedString::new, the RC4 key schedule, the 14 hash-layout functions and the TBC / Wrath key constructors, the SHA-1 interleave, the API orchestration of server.rs / client.rs / the world-login ProofSeeds; their meanings in lean/WowSrp/Model/Mini*.lean), the correspondence harness (harness/ in three builds: num-bigint, rug, num-bigint with debug assertions; lean/Driver.lean, tools/verif.py); modelled not verified: rustc/std, sha-1/hmac/md5, num-bigint/rug, rand (Model/Deps.lean, Model/Crypto.lean)",
         technique="Lean 4 machine-checked proof over a model + differential model/implementation correspondence"))
 m = dict(version=1, setup_cmd="./setup.sh",
   hooks=dict(guard="gtker_wow_srp_verif", enable="none needed: no source hooks in /repo; randomness is injected through a [patch.crates-io] shim for the rand crate inside /verif/harness", baseline_off_cmd="cd /repo && cargo test --workspace --no-fail-fast --offline", source_commits=[], add_only=True),
-  engines=[dict(name="lean4-proof+correspondence", path="check", serves_properties=claimed, kind_free_text="Lean 4 model + theorems (lean/), translators re-run on every check (tools/gen_constants.py: constants and source facts; tools/gen_code.py, gen_imp.py, gen_str.py, gen_ksa.py, gen_hash.py: code -> Lean terms), Rust harness (harness/) and Lean driver (lean/Driver.lean) compared line by line, independent Python oracle (tools/pyref.py)")],
+  engines=[dict(name="lean4-proof+correspondence", path="check", serves_properties=claimed, kind_free_text="Lean 4 model + theorems (lean/), translators re-run on every check (tools/gen_constants.py: constants and source facts; tools/gen_code.py, gen_imp.py, gen_str.py, gen_ksa.py, gen_hash.py, gen_ilv.py, gen_api.py: code -> Lean terms), Rust harness (harness/) and Lean driver (lean/Driver.lean) compared line by line, independent Python oracle (tools/pyref.py)")],
   checks=checks, notes="see DESIGN.md; known_findings.json lists repaired defects (fix: commits in /repo)", not_applicable=na)
 json.dump(m, open('/verif/MANIFEST.json', 'w'), indent=1)
 print("claimed:", claimed)
